@@ -232,6 +232,9 @@ class Env(object):
 
     def select(self, r, w, x, t):
         self.polls += 1
+        if any(s is not None and s.closed for s in r):
+            # what select() does with a closed socket object (fileno() == -1)
+            raise ValueError('file descriptor cannot be a negative integer (-1)')
         return [s for s in r if s is not None and s.readable()], [], []
 
     def log(self, what):
@@ -328,6 +331,15 @@ class Env(object):
             # several environment events become visible at the same instant (same loop head)
             for sub in ev[1]:
                 self._apply(p, sub)
+        elif kind == 'other':
+            # another association of the same process runs through a complete conversation right now
+            saved = Patches.env
+            other = Env(ev[1], ev[2], budget=self.budget)
+            other.clock = self.clock
+            Patches.env = other
+            other.run()
+            Patches.env = saved
+            self.cur['log'].append(('other-association', other.final['status'], other.final['state']))
         elif kind == 'bytes_close':
             # the peer sent these bytes and closed at once: both are visible at the next poll
             if sock is not None and not sock.closed and not sock.peer_closed:
